@@ -13,12 +13,12 @@ BIN = os.path.join(TARGET, 'bin')
 GUARD = '--cfg curve25519_dalek_verif'
 
 BACKENDS = {
-    'simd': '',
+    'simd': '--cfg vd_avx2',
     'serial64': '--cfg curve25519_dalek_backend="serial"',
     'serial32': '--cfg curve25519_dalek_backend="serial" --cfg curve25519_dalek_bits="32"',
     'fiat64': '--cfg curve25519_dalek_backend="fiat"',
     'fiat32': '--cfg curve25519_dalek_backend="fiat" --cfg curve25519_dalek_bits="32"',
-    'avx512': '--cfg curve25519_dalek_backend="unstable_avx512"',
+    'avx512': '--cfg curve25519_dalek_backend="unstable_avx512" --cfg vd_avx2 --cfg vd_ifma',
 }
 NIGHTLY = {'avx512'}
 
@@ -56,7 +56,7 @@ def build_one(cfg, profile='rel', quiet=True):
     """Returns (path or None, message)."""
     be, tables, legacy = parse_cfg(cfg)
     os.makedirs(BIN, exist_ok=True)
-    tdir = os.path.join(TARGET, be if profile != 'asan' else be + '-asan')
+    tdir = os.path.join(TARGET, be + {'asan': '-asan', 'bnd': '-bnd', 'bndchk': '-bnd'}.get(profile, ''))
     feats = []
     if tables:
         feats.append('tables')
@@ -75,6 +75,14 @@ def build_one(cfg, profile='rel', quiet=True):
     elif profile == 'chk':
         cmd += ['--profile', 'chk']
         outdir = 'chk'
+    elif profile == 'bnd':
+        # release build with the limb-bound monitor compiled into the vector kernels
+        cmd.append('--release')
+        rf += ' --cfg curve25519_dalek_verif_bounds --cfg vd_bounds'
+    elif profile == 'bndchk':
+        cmd += ['--profile', 'chk']
+        outdir = 'chk'
+        rf += ' --cfg curve25519_dalek_verif_bounds --cfg vd_bounds'
     elif profile == 'asan':
         cmd += ['--release', '--target', 'x86_64-unknown-linux-gnu']
         rf += ' -Zsanitizer=address -Cforce-frame-pointers=yes'
